@@ -65,6 +65,9 @@ impl<T: 'static> Clone for PooledLocalRef<T> {
 unsafe impl<T: 'static> LocalRef<T> for PooledLocalRef<T> {
     #[inline]
     unsafe fn release_event(&self) {
+        #[cfg(folo_verif)]
+        crate::__verif::notify_release(std::ptr::from_ref::<UnsafeCell<LocalEvent<T>>>(self));
+
         #[cfg(debug_assertions)]
         self.core.state.borrow_mut().unregister(self.event);
 
